@@ -4,7 +4,7 @@ Driver for C12.  Line formats (tokens after the property id):
   run <core> <mode> <op> ...            forecaster history, exactly as C03 (values / labels / states)
   seq <estimator> F:<container>:<ikind> A:<id>:<method>:<container>:<chg>:<digest> ... | <inst>:<id> ...
         an opaque fitted estimator as the transformer machine whose `app` is the table of RECORDED
-        first results (`A:` entries: argument id, method, container of the argument, whether the
+        first results (`A:` entries: argument id, method, containers of ALL the arguments joined by `+`, whether the
         first result's values differ from the argument's values, digest of the first result);
         the calls (`inst` = which copy: o original, jN/j1/j2/j4 = equal-parameter twins fitted with
         that n_jobs, pk = pickled and restored copy) are run through `P12.trun`; predicted per call:
@@ -48,18 +48,26 @@ def tableCore : TCore Unit (List ArgEntry) (List ArgEntry) String String where
     | some e => .ok e.digest
     | none => .error .other
 
+/-- the containers of ALL the arguments of a call, joined by `+` (`fh+DataFrame` = predict(fh, X)) -/
+def argsOf (containers : String) (rangeIndex : Bool) : List (String × ArgSnap Bool) :=
+  (containers.splitOn "+").map (fun c => (c, (⟨false, [], rangeIndex⟩ : ArgSnap Bool)))
+
+/-- first differing component over all arguments: values before the index class (the harness's order) -/
+def flagArgs (before after : List (String × ArgSnap Bool)) : String :=
+  if (before.zip after).any (fun p => p.1.2.values != p.2.2.values) then "F:values"
+  else if (before.zip after).any (fun p => p.1.2.rangeIndex != p.2.2.rangeIndex) then "F:itype" else "T"
+
 def flagOf (estimator : String) (e : ArgEntry) : String :=
-  let arg : ArgSnap Bool := ⟨false, [], true⟩
+  let args := argsOf e.container true
   -- values abstracted to "differs from the argument": the argument is `false`, the result `e.chg`
-  let after := callerAfter (effectOf estimator e.method e.container) arg e.chg
-  if after.values != arg.values then "F:values"
-  else if after.rangeIndex != arg.rangeIndex then "F:itype" else "T"
+  flagArgs args (callerAfterAll estimator e.method args e.chg)
 
 def fitFlag (estimator container ikind : String) : String :=
-  let arg : ArgSnap Bool := ⟨false, [], ikind == "range"⟩
-  let after := callerAfter (effectOf estimator "fit" container) arg true
+  let args := argsOf container (ikind == "range")
   -- `fit` returns self, never a value: only the index effect can apply
-  if after.rangeIndex != arg.rangeIndex then "F:itype" else "T"
+  match flagArgs args (callerAfterAll estimator "fit" args true) with
+  | "F:itype" => "F:itype"
+  | _ => "T"
 
 abbrev Call := String × ArgEntry × Method
 
